@@ -44,6 +44,7 @@ func C05(r *core.Run) {
 	labelIndependence(r)
 	refNameKeepsLast(r)
 	detachedCommentsStayDetached(r)
+	commentLinesKeepEmpty(r)
 	presentNeverSkipped(r, printRel+"/optionreflect", "walkOptionMessage", "every populated option field is printed")
 	nestedSkipsMapEntries(r, printRel) // a map entry printed as a nested message duplicates the map field
 	// option string values are rendered by an adaptation of prototext's escaper, which the .proto parser reads back
